@@ -9,7 +9,7 @@ from jaxtyping import Float
 from torch import Tensor
 
 from linear_operator.operators._linear_operator import IndexType, LinearOperator
-from linear_operator.operators.diag_linear_operator import ConstantDiagLinearOperator
+from linear_operator.operators.diag_linear_operator import ConstantDiagLinearOperator, DiagLinearOperator
 from linear_operator.operators.zero_linear_operator import ZeroLinearOperator
 
 from linear_operator.utils.broadcasting import _matmul_broadcast_shape
@@ -107,13 +107,16 @@ class IdentityLinearOperator(ConstantDiagLinearOperator):
     def _mul_constant(
         self: Float[LinearOperator, "*batch M N"], other: Union[float, torch.Tensor]
     ) -> Float[LinearOperator, "*batch M N"]:
-        return ConstantDiagLinearOperator(self.diag_values * other, diag_shape=self.diag_shape)
+        return ConstantDiagLinearOperator(self.diag_values * other.unsqueeze(-1), diag_shape=self.diag_shape)
 
     def _mul_matrix(
         self: Float[LinearOperator, "... #M #N"],
         other: Union[Float[torch.Tensor, "... #M #N"], Float[LinearOperator, "... #M #N"]],
     ) -> Float[LinearOperator, "... M N"]:
-        return other
+        # I * other (elementwise) is the diagonal part of other
+        diag = other._diagonal()
+        batch_shape = torch.broadcast_shapes(self.batch_shape, diag.shape[:-1])
+        return DiagLinearOperator(diag.expand(*batch_shape, diag.shape[-1]))
 
     def _permute_batch(self, *dims: int) -> LinearOperator:
         batch_shape = self.diag_values.permute(*dims, -1).shape[:-1]
